@@ -25,6 +25,9 @@ const TPS = 1000
 // DefaultFreeMemory is what object.FreeMemory() answers inside the simulation when no memory fault is armed.
 const DefaultFreeMemory = 256 << 20
 
+// RunawayTicks: polls of an already fired context after which the simulator aborts the evaluation.
+const RunawayTicks = 2_000_000
+
 // World is the environment one session (or several compared sessions, each with its own World)
 // runs in. Everything is single-goroutine; `cur` is the world the hooks talk to.
 type World struct {
@@ -95,6 +98,11 @@ func (c *SimContext) Err() error {
 	w.inTicks++
 	if w.fired {
 		w.ticksAfter++
+		if w.ticksAfter > RunawayTicks {
+			// The evaluator keeps polling a fired context without ever returning: a Go-level loop that
+			// ignores the error. Break out so the harness can report it (EvalOne recovers panics).
+			panic("simulator: evaluation kept running for more than 2,000,000 polls after the deadline fired")
+		}
 		return w.firedErr
 	}
 	if w.fireAt > 0 && w.inTicks >= w.fireAt {
@@ -269,4 +277,12 @@ func (w *RecWriter) Take() string {
 	w.Writes = 0
 	w.FailAt = 0
 	return s
+}
+
+// ArmProcessMemory makes the free-memory seam answer a constant for the whole process (child
+// workers that do not go through Session.Input).
+func ArmProcessMemory(free int64) {
+	w := NewWorld(0)
+	w.memActive, w.memFree = true, free
+	cur = w
 }
